@@ -302,3 +302,6 @@ PROPS["C07"]["rule"] += " ; plus real multi-file sessions (one file may live in 
 
 PROPS["C09"]["engines"].append(("calls", {"quick": 600, "thorough": 15000}))
 PROPS["C09"]["rule"] += " ; plus constructor calls (harness/engines/calls.py): fix and update approved together and one at a time in both orders give the same call"
+
+PROPS["C09"]["level_text"] += (" Constructor calls (Props/C09b.lean on Model/CallAssign, any fields / keywords with distinct names, Managed values): runCall_compose (a run approving F2 after a run "
+    "approving F1 gives the keyword list of one run approving F1 u F2), call_order_independent, runCall_commute — true since fix e4b1c97 made insert positions independent of other changes.")
